@@ -1,4 +1,157 @@
-import UscxmlVerif.Spec.Nesting
-import UscxmlVerif.Model.Large
+import UscxmlVerif.Proofs.Nest
+/-!
+# C13: monitor notifications are a well-nested account of execution
+
+The notifications of the model are the tokens `XS.emit` records while the engine models run; in
+the model every exit, entry, transition, executed element and dequeued event IS its pair of
+tokens, so "reported exactly once and in execution order" holds by construction and is tied to
+the compiled interpreter by the trace correspondence of checks C01/C13. What needs proof is the
+shape of the token stream: it is accepted by the nesting automaton of `Spec.Nesting`
+(every before has its after; exits, then transitions, then entries inside a micro-step bracket;
+content only inside an exit, transition, entry or the completion; nothing else outside a
+bracket; never two stable-configuration notices without an event or micro-step in between) -
+for every chart, both engines, every sequence of API operations (steps, external events at any
+point, cancellation, reset, destruction), every length.
+-/
 namespace UscxmlVerif.Properties.C13
+open UscxmlVerif UscxmlVerif.Model UscxmlVerif.Model.Large UscxmlVerif.Model.Api UscxmlVerif.Spec.Nesting UscxmlVerif.Proofs.Nest
+
+theorem StepNest.refl (e : EState) : StepNest e e := fun stk hb => ⟨stk, hb, Nest.refl stk _⟩
+
+theorem StepNest.trans {a b c : EState} (h1 : StepNest a b) (h2 : StepNest b c) : StepNest a c := by
+  intro stk hb
+  obtain ⟨s1, b1, n1⟩ := h1 stk hb
+  obtain ⟨s2, b2, n2⟩ := h2 s1 b1
+  exact ⟨s2, b2, Nest.trans n1 n2⟩
+
+/-- changes of the observations that every stack lets pass, with the flags untouched -/
+theorem stepNest_pass (e e' : EState) (hs : e'.spontaneous = e.spontaneous) (hst : e'.stable = e.stable) (hp : e'.pristine = e.pristine)
+    (h : ∀ stk, Nest stk stk e.x e'.x) : StepNest e e' := by
+  intro stk hb
+  refine ⟨stk, ?_, h stk⟩
+  rcases hb with h0 | ⟨h0, h1, h2⟩
+  · exact Or.inl h0
+  · exact Or.inr ⟨h0, by rw [hs]; exact h1, by rw [hst, hp]; exact h2⟩
+
+theorem engineStep_nest (eng : Engine) (c : Chart) (e : EState) : StepNest e (engineStep eng c e).1 := by
+  cases eng
+  · exact large_step_nest c e
+  · exact fast_step_nest c e
+
+theorem stepOnce_nest (eng : Engine) (c : Chart) (a : Api) : StepNest a.e (stepOnce eng c a).1.e := by
+  unfold stepOnce
+  split
+  · exact StepNest.refl _
+  · exact engineStep_nest eng c a.e
+
+theorem stepObserved_nest (eng : Engine) (c : Chart) (a : Api) : StepNest a.e (stepObserved eng c a).1.e := by
+  unfold stepObserved
+  refine StepNest.trans (stepOnce_nest eng c a) ?_
+  refine stepNest_pass _ _ rfl rfl rfl (fun stk => ?_)
+  exact Nest.trans (nest_emit stk stk _ _ rfl) (nest_emit stk stk _ _ rfl)
+
+theorem quiesce_nest (eng : Engine) (c : Chart) (fuel : Nat) (a : Api) : StepNest a.e (quiesce eng c fuel a).e := by
+  induction fuel generalizing a with
+  | zero => exact stepNest_pass _ _ rfl rfl rfl (fun stk => nest_emit stk stk _ _ rfl)
+  | succ n ih =>
+    unfold quiesce
+    simp only
+    split
+    · exact stepObserved_nest eng c a
+    · exact StepNest.trans (stepObserved_nest eng c a) (ih _)
+
+theorem applyApi_nest (eng : Engine) (c : Chart) (a : Api) (op : Op) : StepNest a.e (applyApi eng c a op).e := by
+  cases op with
+  | step => exact stepObserved_nest eng c a
+  | quiesce => exact quiesce_nest eng c cap a
+  | receive ev => exact stepNest_pass _ _ rfl rfl rfl (fun stk => nest_sendExt stk _ ev)
+  | cancel =>
+    refine stepNest_pass _ _ rfl rfl rfl (fun stk => ?_)
+    exact Nest.trans (nest_emit stk stk _ _ rfl) (nest_sendExt stk _ "")
+  | getState => exact stepNest_pass _ _ rfl rfl rfl (fun stk => nest_emit stk stk _ _ rfl)
+  | reset => exact StepNest.refl _
+  | destroy => exact StepNest.refl _
+
+/-- all notifications of a session, oldest first -/
+def toks (s : Session) : List Tok := (s.a.e.x.obs ++ s.past).reverse
+
+/-- the automaton has accepted everything so far and rests on a stack the engine's flags agree with -/
+def Good (s : Session) : Prop := ∃ stk, Base s.a.e stk ∧ runT [] (toks s) = some stk
+
+theorem good_init : Good {} := ⟨[], Or.inl rfl, rfl⟩
+
+theorem good_apply (eng : Engine) (c : Chart) (s : Session) (op : Op) (h : Good s) : Good (apply eng c s op) := by
+  obtain ⟨stk, hb, hr⟩ := h
+  have live : ∀ op', Good { s with a := applyApi eng c s.a op' } := by
+    intro op'
+    obtain ⟨stk', hb', seg, hseg, hrun⟩ := applyApi_nest eng c s.a op' stk hb
+    refine ⟨stk', hb', ?_⟩
+    have : toks { s with a := applyApi eng c s.a op' } = toks s ++ seg := by
+      simp only [toks, List.reverse_append]
+      rw [hseg, List.append_assoc]
+    rw [this, runT_append, hr]
+    exact hrun
+  have fresh : ∀ (n : String), Good { past := Tok.note n :: (s.a.e.x.obs ++ s.past), a := {} } := by
+    intro n
+    refine ⟨stk, ?_, ?_⟩
+    · rcases hb with h0 | ⟨h0, _, _⟩
+      · exact Or.inl h0
+      · exact Or.inr ⟨h0, rfl, Or.inr rfl⟩
+    · have : toks { past := Tok.note n :: (s.a.e.x.obs ++ s.past), a := {} } = toks s ++ [Tok.note n] := by
+        simp [toks]
+      rw [this, runT_append, hr]
+      rfl
+  cases op with
+  | reset => exact fresh "reset"
+  | destroy => exact fresh "destroyed"
+  | step => exact live .step
+  | quiesce => exact live .quiesce
+  | receive ev => exact live (.receive ev)
+  | cancel => exact live .cancel
+  | getState => exact live .getState
+
+theorem good_run (eng : Engine) (c : Chart) (ops : List Op) : Good (run eng c ops) := by
+  unfold run
+  suffices h : ∀ s, Good s → Good (ops.foldl (apply eng c) s) from h {} good_init
+  induction ops with
+  | nil => intro s h; exact h
+  | cons op rest ih => intro s h; exact ih _ (good_apply eng c s op h)
+
+theorem checkT_of_runT (trace : List Tok) (stk stk' : List Frame) (i : Nat)
+    (h : runT stk trace = some stk') (hb : stk' = [] ∨ stk' = [.stable]) : checkT trace stk i = none := by
+  induction trace generalizing stk i with
+  | nil =>
+    simp only [runT, Option.some.injEq] at h
+    subst h
+    rcases hb with h | h <;> subst h <;> rfl
+  | cons t rest ih =>
+    simp only [runT] at h
+    unfold checkT
+    cases hs : stepTok stk t with
+    | none => rw [hs] at h; cases h
+    | some s1 =>
+      rw [hs] at h
+      exact ih s1 (i + 1) h
+
+/-- **C13** (nesting, balance, phases, one stable-configuration notice per macrostep): for every chart, both
+engines and every sequence of API operations the notifications observed so far are accepted by the nesting
+automaton, which rests outside every bracket. -/
+theorem notifications_well_nested (eng : Engine) (c : Chart) (ops : List Op) :
+    wellNestedT (toks (run eng c ops)) = true := by
+  obtain ⟨stk, hb, hr⟩ := good_run eng c ops
+  unfold wellNestedT
+  rw [checkT_of_runT _ [] stk 0 hr (by rcases hb with h | ⟨h, _, _⟩ <;> simp [h])]
+  rfl
+
+/-- the log the correspondence check compares with the compiled interpreter is the rendering of these tokens -/
+theorem log_is_rendering (s : Session) : s.log = (toks s).map Tok.toString := rfl
+
+/-- every `before` of a micro-step, state exit/entry, transition or content element that the automaton accepted
+has been closed when the automaton rests: a prefix that ends inside a bracket is rejected as a complete trace -/
+example : wellNestedT [.bm, .bx "s", .ax "s", .bt "s.0", .bc 3, .log "l", .ac 3, .at "s.0", .be "t", .ae "t", .am, .st] = true := by decide
+example : wellNestedT [.bm, .bx "s"] = false := by decide
+example : wellNestedT [.bm, .be "t", .ae "t", .bx "s", .ax "s", .am] = false := by decide      -- entry before exit
+example : wellNestedT [.bm, .am, .st, .st] = false := by decide                               -- two notices, one macrostep
+example : wellNestedT [.bc 1, .ac 1] = false := by decide                                      -- content outside a bracket
+
 end UscxmlVerif.Properties.C13
